@@ -146,7 +146,14 @@ def first_prefix(a: Bytes, c: Bytes):
     ensures(first(a + c) == first(a))
 
 
-@lemma(decreases='len(a)')
+@lemma
+def frames_step(X: ListBytes, G: ListBytes, F: ListBytes, c: Bytes, R: ListBytes):
+    """re-association used by the framing loop: moving the first frame from the pending list to the dispatched list"""
+    requires(X == G + F and F == lb(c) + R)
+    ensures(X == (G + lb(c)) + R)
+
+
+@lemma(decreases='len(a)', solver_ms=40000)
 def seg(a: Bytes, c: Bytes):
     """segmentation: feeding a then c dispatches the same frames and leaves the same remainder as feeding a + c"""
     if first(a) > 0:
